@@ -78,7 +78,7 @@ func deeper(q map[string]int) map[string]int {
 // which owns "each reference means its own definition", and C03, which owns the type facet).
 func collidingNamesUnit(only string) Unit {
 	return Unit{Name: "colliding-definition-names", Harness: "pkg/generator:HarnessC10Names", Layer: "L3", Only: only,
-		Desc:   "three (thorough: four) definitions whose names normalise to ONE Go identifier (line-ref, lineRef, line_ref, LineRef), each integer, string, boolean or one of two string enums differing in one member, in every combination (equal schemas may share a declaration, different ones get suffixed names), one property per definition: the emitted root type accepts a symbolic document iff every member has the type of ITS definition",
+		Desc:   "three (thorough: four) definitions whose names normalise to ONE Go identifier (line-ref, lineRef, line_ref, LineRef), each integer, string, boolean or one of two string enums differing in one member, in every combination (equal schemas may share a declaration, different ones get suffixed names), one property per definition: the emitted root type accepts a symbolic document iff every member has the type of ITS definition; second mode: a definition whose name (OrderItem / order-item / orderItem) is the Go name that the INLINE nested type Order.item gets, with independent member kinds and required flags, referenced from a property and from array items",
 		Bounds: "3 names x 5 kinds (125 assignments) quick, 4 names (625) thorough; members absent/null/any JSON value",
 		Quick:  map[string]int{"GRID": 2, "GRIDMAG": 36, "NAMES": 3}, Thor: map[string]int{"GRID": 2, "GRIDMAG": 36, "NAMES": 4},
 		Panic:  "inconclusive"}
@@ -450,10 +450,22 @@ func textKernels(only string, suffix []string) []Unit {
 }
 
 func init() {
+	properties["C01"].Units = append(properties["C01"].Units, Unit{Name: "composition-corpus", Harness: "pkg/generator:HarnessCorpus", Layer: "L3", Only: "C01.",
+		Desc:   "six schema documents that combine allOf/anyOf with references in the ways that stress declaration bookkeeping (a composed definition with a union of references inside, referenced two and three times; a definition that is itself a union; allOf of references with own properties and a union in array items; recursion through allOf; enums and closed objects shared by several positions), through the real parser and generator under the default options, --only-models and --extra-imports: the emitted file type-checks",
+		Bounds: "six concrete documents x three option sets", Panic: "inconclusive"})
 	for _, id := range []string{"C04", "C05", "C06", "C07", "C08", "C10"} {
 		properties[id].Units = append(properties[id].Units, siblingsUnit(id+"."))
 	}
 	properties["C08"].Units = append(properties["C08"].Units, collidingNamesUnit("C08."))
+	properties["C04"].Units = append(properties["C04"].Units, collidingNamesUnit("C04."))
+	properties["C02"].Units = append(properties["C02"].Units, siblingsUnit("C02."))
+	for _, u := range properties["C14"].Units {
+		if u.Name == "colliding-sibling-names" {
+			u.Only = "C03."
+			u.Desc = "the sibling-name families of C14 (names with %, white space, separators, suffix look-alikes) seen through C03: with one of the keys carrying a string instead of an integer the document is rejected, whichever key it is"
+			properties["C03"].Units = append(properties["C03"].Units, u)
+		}
+	}
 	for _, u := range properties["C12"].Units {
 		if u.Name == "cli/map-order-schedules" {
 			u.Only = "C20."
